@@ -15,7 +15,7 @@ CONF = {
     'C01': dict(
         inv=['InvC01', 'InvViews'],
         mc=[('base', ENV_ALL, None), ('failure', ['Submit', 'RemoveApp', 'Down', 'Up', 'Freeze', 'RemoveServer', 'AddServer', 'Tick', 'SetPrio'], None)],
-        gen=['base', 'failure', 'affinity', 'identity'],
+        gen=['base', 'failure', 'affinity', 'identity'], weights=['pressure', 'failure'],
         rule='a history counts when at least one cycle ends with an instance placed; distinct = distinct environment histories'),
     'C02': dict(
         inv=['InvC02', 'InvViews'],
@@ -25,18 +25,18 @@ CONF = {
     'C03': dict(
         inv=['InvC03', 'InvViews'],
         mc=[('base', ['Submit', 'Move', 'Renew', 'Tick', 'Down', 'Freeze', 'Up', 'RemoveServer', 'AddServer', 'SetPrio'], None)],
-        gen=['base', 'base', 'failure'],
+        gen=['base', 'topology', 'failure'], weights=['lease', 'lease', 'failure'],
         rule='a history counts when some cycle assigns an instance to a (new) server; distinct = distinct environment histories'),
     'C04': dict(
         inv=['InvC04', 'InvViews'],
         mc=[('affinity', ['Submit', 'RemoveApp', 'SetPrio', 'Down', 'Up', 'RemoveServer', 'AddServer'], None)],
-        gen=['affinity', 'affinity', 'base'],
+        gen=['affinity', 'affinity', 'topology'], weights=['pressure', 'pressure'],
         rule='a history counts when after some cycle a node is exactly at a finite affinity limit; distinct = distinct environment histories'),
     'C05': dict(
         inv=['InvC05', 'InvViews'],
         mc=[('identity', ['Submit', 'RemoveApp', 'SetCount', 'DelGroup', 'Blacklist', 'Unblacklist', 'Down', 'Tick', 'RemoveServer', 'SetPrio'], None),
             ('base', ['Submit', 'RemoveApp', 'SetCount', 'DelGroup', 'Blacklist', 'RemoveServer', 'AddServer', 'Renew', 'Tick'], [3, 6, 1])],
-        gen=['identity', 'identity', 'base'],
+        gen=['identity', 'identity', 'base'], weights=['identity', 'identity', 'pressure'],
         rule='a history counts when after some cycle an instance of an identity group holds an identity; distinct = distinct environment histories'),
     'C06': dict(
         inv=['InvC06', 'InvViews'],
@@ -48,12 +48,12 @@ CONF = {
         inv=['InvC07', 'InvViews'],
         mc=[('base', ['Submit', 'RemoveApp', 'SetPrio', 'Down', 'Up', 'RemoveServer', 'AddServer', 'Move'], None),
             ('affinity', ['Submit', 'SetPrio', 'RemoveServer', 'Down'], None)],
-        gen=['base', 'affinity', 'failure', 'identity'],
+        gen=['base', 'affinity', 'failure', 'topology'], weights=['pressure', 'pressure', 'lease'],
         rule='a history counts when a cycle displaces an instance that was running on an up server and was entitled to stay (so the justification clause is exercised); distinct = distinct environment histories'),
     'C08': dict(
         inv=['InvC08', 'InvViews'],
         mc=[('failure', ['Submit', 'Down', 'Up', 'Freeze', 'MarkUnschedule', 'Tick', 'Blacklist', 'Unblacklist', 'SetPrio', 'RemoveApp'], None)],
-        gen=['failure', 'failure', 'base'],
+        gen=['failure', 'failure', 'base'], weights=['failure', 'failure', 'pressure'],
         rule='a history counts when a cycle starts with an instance on a down or frozen server, or with a blacklisted instance; distinct = distinct environment histories'),
 }
 
@@ -87,8 +87,9 @@ def _mc(ctx, prop):
 def _gen(ctx, prop):
     """TLC-generated histories + seeded random ones."""
     conf = CONF[prop]
-    n_tlc = 60 if ctx.quick else 1500
-    n_rnd = 150 if ctx.quick else 4000
+    n_tlc = 40 if ctx.quick else 1500
+    n_rnd = 220 if ctx.quick else 4000
+    wsets = [None] + [sc.WEIGHTS[w] for w in conf.get('weights', [])]
     out = []
     gens = list(conf['gen'])
     rs = random.Random(ctx.seed * 65537)
@@ -110,7 +111,8 @@ def _gen(ctx, prop):
             out.append((scn, 'tlc', h))
         rng = random.Random(ctx.seed * 7919 + k)
         for _ in range(n_rnd):
-            out.append((scn, 'rnd', sc.gen_random(sc.SCENARIOS[scn], rng, rng.choice([6, 10, 14]))))
+            out.append((scn, 'rnd', sc.gen_random(sc.SCENARIOS[scn], rng, rng.choice([6, 10, 14, 18]),
+                                                  rng.choice(wsets))))
     return out
 
 
@@ -166,12 +168,18 @@ def run(ctx, prop):
         traces.extend(recs)
     traces += l2
     ctx.log('recorded %d traces, %d lines' % (len(traces), sum(len(t['lines']) for t in traces)))
-    verdicts, stats = sc.validate(traces, timeout=600 if ctx.quick else 3000)
-    ctx.cmds.append(stats['cmd'])
-    total = sum(len(t['lines']) - 1 for t in traces)
+    verdicts, stats, unjudged = core.validate_robust(
+        lambda ts: sc.validate(ts, timeout=600 if ctx.quick else 3000), traces, ctx)
+    ctx.cmds.append(stats.get('cmd', ''))
+    bad = {t['tid'] for t in unjudged}
+    total = sum(len(t['lines']) - 1 for t in traces if t['tid'] not in bad)
     if len(verdicts) != total:
         raise tlc.MachineryError('trace spec judged %d of %d lines' % (len(verdicts), total))
-    return judge(ctx, prop, traces, verdicts)
+    rc = judge(ctx, prop, [t for t in traces if t['tid'] not in bad], verdicts)
+    if unjudged and rc == 0:
+        raise tlc.MachineryError('%d recorded traces could not be evaluated by the trace spec '
+                                 '(first: %s)' % (len(unjudged), unjudged[0]['tid']))
+    return rc
 
 
 def _buckets(ctx):
